@@ -105,7 +105,7 @@ def run_mc_step(tag, instrs, pools, workdir, workers=8, timeout=1800):
     mod = "MCrun_%d_" % os.getpid() + re.sub(r"[^A-Za-z0-9]", "_", tag)
     p = dict(IntVals=[-2147483648, -1, 0, 1, 2, 2147483647], FloatVals=[0, 1065353216], NameVals=["a", "b"],
              CodePool="atoms", VecPool="small", DInt=2, DFloat=2, DBool=2, DName=2, DCode=2, DExec=2, DVec=2,
-             Interp=False, invariants=["FrameInv", "StackLaws", "Emit"])
+             Interp=False, invariants=["FrameInv", "StackLaws", "ScalarLaws", "VectorLaws", "ListLaws", "Emit"])
     p.update(pools)
     with open(os.path.join(MC, mod + ".tla"), "w") as f:
         f.write("---- MODULE %s ----\nEXTENDS MC_Step\n" % mod)
